@@ -32,6 +32,17 @@ def skiplist_summaries(S, mir, K):
         return outs
     P[r'ConcurrentSkipList::find_greater_or_equal_node'] = ge
     P[r'ConcurrentSkipList::find_less_than_node'] = lt
+    # the non-node variants hand out (key, value) pairs
+    def pair_of(outs):
+        res = []
+        for o in outs:
+            r = o[1]
+            if isinstance(r, Enum) and r.tag == 'Some':
+                i = r.fields[0]['node']; r = Enum('Some', ((Ref('$store', ('entries', i, 0)), Ref('$store', ('entries', i, 1))),))
+            res.append((o[0], r) + tuple(o[2:]))
+        return res
+    P[r'ConcurrentSkipList::find_greater_or_equal'] = lambda se, env, pc, sl, t: pair_of(ge(se, env, pc, sl, t))
+    P[r'ConcurrentSkipList::find_less_than'] = lambda se, env, pc, sl, t: pair_of(lt(se, env, pc, sl, t))
     P[r'ConcurrentSkipList::first_node'] = lambda se, env, pc, sl: lib.one(env, node(0) if store(se, env, sl)['entries'] else Enum('None'))
     P[r'ConcurrentSkipList::last_node'] = lambda se, env, pc, sl: lib.one(env, node(len(store(se, env, sl)['entries']) - 1) if store(se, env, sl)['entries'] else Enum('None'))
     P[r'ConcurrentSkipList::len'] = lambda se, env, pc, sl: lib.one(env, bv(len(store(se, env, sl)['entries'])))
